@@ -151,7 +151,7 @@ class FullEngine(Engine):
             return [(p, self.module_member(mod, n))]
         if n in ("len", "isinstance", "issubclass", "type", "list", "tuple", "set", "dict", "hasattr", "getattr",
                  "setattr", "delattr", "repr", "hex", "id", "str", "int", "max", "min", "range", "enumerate", "sorted",
-                 "super", "hash", "object", "bool", "dir"):
+                 "super", "hash", "object", "bool", "dir", "chr"):
             return [(p, VBuiltin(n))]
         if n in EXC_PARENTS:
             return [(p, VConst(("excclass", n)))]
@@ -445,6 +445,8 @@ class FullEngine(Engine):
             else:
                 raise Unsupported(f"comparison of {type(a).__name__} with {type(b).__name__}")
             return T.neg(c) if negate else c
+        if isinstance(op, ast.GtE) and isinstance(a, VRef) and a.role == "opaque" and isinstance(b, VInt):
+            return T.py_ge(a.term, b.term)
         if isinstance(op, (ast.Lt, ast.LtE, ast.Gt, ast.GtE)):
             if isinstance(a, VInt) and isinstance(b, VInt):
                 return {ast.Lt: a.term < b.term, ast.LtE: a.term <= b.term, ast.Gt: a.term > b.term, ast.GtE: a.term >= b.term}[type(op)]
@@ -575,7 +577,20 @@ class FullEngine(Engine):
             raise Unsupported(f"attribute {attr} is ambiguous for static class {cn}: {tops}")
         return self.repo.find_member(tops[0], attr), tops[0]
 
+    PICKLER = "_NonrecursivePickler"
+
     def _load_attr_obj(self, recv: VRef, attr, p: Path, via_super=None):
+        if recv.cname == self.PICKLER:
+            # instance layout established by _NonrecursivePickler.__init__ (side condition A13): `lazywrites` is a list object,
+            # `write` is the bound method lazywrite, `realwrite` the file's write; realsave / realmemoize are dill's methods
+            if attr == "lazywrites":
+                return [(p, VList(p.st.read("dyn_val", recv.term, z3.StringVal("lazywrites")), None))]
+            if attr == "write":
+                return [(p, VBound(recv, "lazywrite"))]
+            if attr in ("realwrite", "realsave", "realmemoize"):
+                return [(p, VBound(recv, attr))]
+        if attr == "obj" and recv.role == "opaque" and getattr(self.cur, "module", "").endswith("nrpickler"):
+            return [(p, VRef(T.item_obj(recv.term), None, "opaque"))]       # payload of a queue item (a record value, A13)
         mem, down = self._member_owner(recv, attr, via_super)
         if mem is not None:
             out = []
@@ -1179,6 +1194,8 @@ class FullEngine(Engine):
                             nxt.append((r, v, None))
                         elif isinstance(v, VPyTuple):
                             nxt.append((r, args + v.items, kw))
+                        elif isinstance(v, VRef) and v.role == "opaque":
+                            nxt.append((r, args + [VConst(("star", v))], kw))      # an opaque argument tuple passed on as *args
                         else:
                             raise Unsupported("*args of " + type(v).__name__)
                 res = nxt
@@ -1292,6 +1309,29 @@ class FullEngine(Engine):
         return self.call_container_method(recv, b.name, args, kw, p)
 
     def call_method(self, recv: VRef, name, args, kw, p: Path, via_super=None):
+        if recv.cname == self.PICKLER and name in ("realwrite", "realsave", "realmemoize", "lazywrite") and not kw:
+            qn = f"{self.PICKLER}.{name}"
+            if name in ("realwrite", "lazywrite"):
+                # *args: one packed argument tuple
+                if len(args) == 1 and isinstance(args[0], VConst) and isinstance(args[0].value, tuple) and args[0].value[0] == "star":
+                    pack = args[0].value[1]
+                elif len(args) == 1:
+                    a = args[0]
+                    r_ = self.ref_of(a)
+                    if r_ is None and isinstance(a, VModule):
+                        r_ = z3.Const(a.dotted, Ref)               # a constant of a third-party module (pickle.STOP)
+                    if r_ is None and isinstance(a, VOpaque):
+                        r_ = T.fresh("opaque_value", Ref)
+                    if r_ is None:
+                        raise Unsupported("write argument")
+                    pack = VRef(T.pack1(r_), None, "opaque")
+                    p.assume(T.cls_of(pack.term) == self.ct.Other)          # an argument tuple
+                else:
+                    raise Unsupported("write with several arguments")
+                return self.call_contract(qn, {"self": recv, "args": pack}, p)
+            if len(args) != 1:
+                raise Unsupported(f"{name} arity")
+            return self.call_contract(qn, {"self": recv, "obj": args[0]}, p)
         mem = self.resolve_class_member(recv.cname, name, via_super)
         if mem is None:
             m2, down = self._member_owner(recv, name, via_super)
@@ -1487,6 +1527,12 @@ class FullEngine(Engine):
 
     # -- construction ------------------------------------------------------------------------------------------------
     def construct(self, cv: VCls, args, kw, p: Path):
+        if cv.pyname in ("_LazySave", "_LazyMemo") and len(args) == 1 and not kw:
+            r_ = self.ref_of(args[0])
+            if r_ is None:
+                raise Unsupported("queue item payload")
+            mk = T.mk_save if cv.pyname == "_LazySave" else T.mk_memo
+            return [(p, VRef(mk(r_), None, "opaque"))]          # a record value (A13: nothing depends on the identity of an item)
         cname = cv.pyname or cv.bound
         if cname is None:
             raise Unsupported("construction of unknown class")
@@ -1567,6 +1613,8 @@ class FullEngine(Engine):
             if name == "append" and len(args) == 1:
                 p.st.write("elems", recv.ref, T.snoc(seq, self.ref_of(args[0])))
                 return [(p, NONE_V)]
+            if name == "pop" and len(args) == 1 and isinstance(args[0], VInt) and z3.is_int_value(args[0].term) and args[0].term.as_long() == 0:
+                name, args = "popleft", []
             if name in ("popleft", "pop") and not args:
                 out = []
                 for (q, side) in self.fork(p, T.Len(seq) > 0, name):
@@ -1622,6 +1670,8 @@ class FullEngine(Engine):
             raise Unsupported("dict.items() of an argument dictionary")
         if isinstance(recv, VNet):
             return self.call_net_method(recv, name, args, kw, p)
+        if isinstance(recv, VOpaque) and not recv.what.startswith("ext:") and name in ("encode", "decode"):
+            return [(p, VOpaque("bytes"))]          # a pure conversion of a value we do not model
         if isinstance(recv, VOpaque) and recv.what.startswith("ext:"):
             # a method of an unverified third-party object (A10): no effect on edgegraph state; it may raise
             out = [(p.copy(), VRaise("AssertionError" if name == "add_edge" else "Exception", f"{recv.what}.{name}"))]
@@ -1762,7 +1812,7 @@ class FullEngine(Engine):
             return [(p, VConst(("id", args[0].term)))]
         if name == "hex" and len(args) == 1 and isinstance(args[0], VConst) and isinstance(args[0].value, tuple) and args[0].value[0] == "id":
             return [(p, VRef(T.hexid(args[0].value[1]), None, "opaque"))]       # hex(id(obj)): an opaque label value
-        if name in ("hex", "id", "repr", "str") and len(args) == 1:
+        if name in ("hex", "id", "repr", "str", "chr") and len(args) == 1:
             return [(p, VOpaque(name))]
         if name == "set" and not args:
             return [(p, self.new_set(p))]
